@@ -323,6 +323,7 @@ type c03tx struct {
 //   p1: root/0 -> C x, A 9-x; writes k1 (never-written)     p2: root/0 -> B 9; reads k1 (never-written)
 //   p3: root/1 -> C 5; writes k1 (never-written)             p4: p1/0 -> A x            (depends on p1)
 //   q1, q2: each reads k1 at p3's version and overwrites it  (depend on p3, conflict with each other)
+//   p5: root/1 + p1/0 -> A 5+x   (confirmed input listed before the pending one)
 // Operations: DoTx(any member), or a peer block (coinbase + one of p1,p2,p3) confirmed and played.
 // Oracle: unspent outputs and key versions maintained from the successful operations only.
 func verifC03(K int) {
@@ -340,6 +341,8 @@ func verifC03(K int) {
 	p4 := vkit.Tx("p4", []*protos.TxInput{vkit.In([]byte("p1"), 0, "C", x)}, []*protos.TxOutput{vkit.Out("A", x, 0)})
 	q1 := vkit.WithKey(vkit.Tx("q1", nil, nil), "bk", "k1", []byte("p3"), 0, []byte("q1"))
 	q2 := vkit.WithKey(vkit.Tx("q2", nil, nil), "bk", "k1", []byte("p3"), 0, []byte("q2"))
+	// p5: inputs [confirmed root/1, pending p1/0] in that order (depends on p1, conflicts with p3 and p4)
+	p5 := vkit.Tx("p5", []*protos.TxInput{vkit.In(root, 1, "B", five), vkit.In([]byte("p1"), 0, "C", x)}, []*protos.TxOutput{vkit.Out("A", new(big.Int).Add(five, x), 0)})
 	rootA, rootB := string(root)+"/0", string(root)+"/1"
 	fam := []c03tx{
 		{p1, []string{rootA}, []string{"k1@"}, "k1", nil},
@@ -348,6 +351,7 @@ func verifC03(K int) {
 		{p4, []string{"p1/0"}, nil, "", []int{0}},
 		{q1, nil, []string{"k1@p3"}, "k1", []int{2}},
 		{q2, nil, []string{"k1@p3"}, "k1", []int{2}},
+		{p5, []string{rootB, "p1/0"}, nil, "", []int{0}},
 	}
 	// oracle state
 	unspent := map[string]bool{rootA: true, rootB: true}
@@ -489,6 +493,15 @@ func verifC03(K int) {
 		err := s.Play(b.Blockid)
 		vrt.Quiesce()
 		vrt.Known("pending-writer-blocks-unseen-reader", unseenReaderVsPendingWriter)
+		// the block's member is a pure reader this node holds pending, and a writer of the version it
+		// cites has been confirmed meanwhile (the writer was pending here too when its block arrived)
+		pendingReaderOfSupersededVersion := false
+		for j := range fam {
+			if confirmed[j] && fam[j].wkey != "" && inPool[i] && fam[i].wkey == "" && len(fam[i].keyIn) > 0 && fam[j].keyIn[0] == fam[i].keyIn[0] {
+				pendingReaderOfSupersededVersion = true
+			}
+		}
+		vrt.Known("pending-reader-survives-confirmed-writer", pendingReaderOfSupersededVersion)
 		if !vrt.Symbolic() {
 			println("C03 play member", i, "validOnConfirmed", validOnConfirmed, "err", err != nil)
 			if err != nil {
@@ -557,8 +570,8 @@ func verifC03(K int) {
 	}
 }
 
-func VerifC03Quick()    { verifC03(2) }
-func VerifC03Thorough() { verifC03(3) }
+func VerifC03Quick()    { verifC03(3) }
+func VerifC03Thorough() { verifC03(4) }
 
 // ---------------------------------------------------------------- C18
 
@@ -585,11 +598,19 @@ func verifC18(N int) {
 		vrt.Assert(err == nil && v != nil && v.PureData != nil, "live-read-succeeds")
 		return c18rec{append([]byte{}, v.PureData.Value...), string(v.RefTxid) + "/" + string([]byte{byte('0' + v.RefOffset)})}
 	}
+	// a writer may put k1 at output index 0 or, behind an unrelated key, at index 1
 	mk := func(id string, value []byte, write bool) *pb.Transaction {
 		t := vkit.Tx(id, nil, nil)
 		if write {
+			pos := int32(0)
+			if len(value) == 1 && value[0] != 0 || string(value) == "pending" {
+				pos = int32(vrt.Choice("pos", 2))
+			}
+			if pos == 1 {
+				vkit.WithKey(t, "bk", "aux-"+id, nil, 0, []byte("aux"))
+			}
 			vkit.WithKey(t, "bk", "k1", curTx, curOff, value)
-			curTx, curOff = []byte(id), 0
+			curTx, curOff = []byte(id), pos
 		} else {
 			vkit.WithKey(t, "bk", "k1", curTx, curOff, nil)
 		}
